@@ -11,7 +11,6 @@ package main
 // construction are executed and their result compared (catches operand wrap-around that lands on a valid start).
 
 import (
-	"context"
 	"encoding/hex"
 	"fmt"
 	"os"
@@ -184,7 +183,13 @@ func runProto(p *lua.FunctionProto, timeout time.Duration) (outcome string) {
 	L := lua.NewState(lua.Options{SkipOpenLibs: true, CallStackSize: 120, RegistrySize: 1024 * 8, RegistryMaxSize: 1024 * 256})
 	defer L.Close()
 	hostGlobals(L)
-	ctx, cancel := context.WithTimeout(context.Background(), timeout)
+	// an instruction budget (20 000 dispatched instructions per millisecond asked for) with a generous wall-clock backstop:
+	// the outcome must not depend on the load of the machine
+	backstop := 30 * timeout
+	if backstop < 2*time.Minute {
+		backstop = 2 * time.Minute
+	}
+	ctx, cancel := newBudgetCtxWithBackstop(int64(timeout/time.Millisecond)*20000, backstop)
 	defer cancel()
 	L.SetContext(ctx)
 	defer func() {
